@@ -34,7 +34,7 @@ class _Cexptrk_Potential_Function(object):
     label = func._potential_form_tuple.signature.label
     try:
       self._local_symbol_table.functions[label] = func
-    except (cexprtk._exceptions.NameShadowException, KeyError) as e:
+    except (cexprtk._exceptions.NameShadowException, KeyError, UnicodeError) as e:
       # KeyError: the label is already used by one of this form's own parameters
       msg = "Name clash for potential-form '{}': {}".format(label, str(e))
       raise Potential_Form_Exception(msg)
@@ -58,7 +58,8 @@ class _Cexptrk_Potential_Function(object):
       if not self._expression:
         try:
           self._expression = cexprtk.Expression(self._potential_form_tuple.expression, self._local_symbol_table)
-        except cexprtk.ParseException as pe:
+        except (cexprtk.ParseException, UnicodeError) as pe:
+          # UnicodeError: the expression language is ASCII only
           raise Potential_Form_Exception("mathematical expression couldn't be parsed {}".format(pe))
       retval = self._expression()
       return retval
